@@ -24,14 +24,14 @@ def lastP {α} (l : List (List α)) : List α := l.getLastD []
 
 /-! ## line.unframe -/
 
-/-- `on_next` of `line.unframe`:
+/-- `on_next` of `line.unframe`, generic in the character type (`nl` = the newline):
 ```
 lines = i.split('\n'); lines[0] = acc + lines[0]; acc = lines[-1] or ''
 for line in lines[0:-1]: observer.on_next(line)
 ```
 returns (emitted lines, new acc). -/
-def lineFeed (acc : List Char) (chunk : List Char) : List (List Char) × List Char :=
-  let lines := splitC '\n' chunk
+def lineFeedG {α} [DecidableEq α] (nl : α) (acc : List α) (chunk : List α) : List (List α) × List α :=
+  let lines := splitC nl chunk
   match lines with
   | [] => ([], acc)                      -- unreachable: split never returns []
   | l0 :: rest =>
@@ -39,16 +39,20 @@ def lineFeed (acc : List Char) (chunk : List Char) : List (List Char) × List Ch
     (lines'.dropLast, lastP lines')
 
 /-- `on_completed` of `line.unframe`: a non-empty carry is delivered once. -/
-def lineFinish (acc : List Char) : List (List Char) :=
+def lineFinishG {α} (acc : List α) : List (List α) :=
   if acc.length > 0 then [acc] else []
 
 /-- run over a chunk list: per-chunk outputs, then the completion outputs -/
-def lineRun : List Char → List (List Char) → List (List (List Char)) × List (List Char)
-  | acc, [] => ([], lineFinish acc)
+def lineRunG {α} [DecidableEq α] (nl : α) : List α → List (List α) → List (List (List α)) × List (List α)
+  | acc, [] => ([], lineFinishG acc)
   | acc, c :: cs =>
-    let r := lineFeed acc c
-    let r2 := lineRun r.2 cs
+    let r := lineFeedG nl acc c
+    let r2 := lineRunG nl r.2 cs
     (r.1 :: r2.1, r2.2)
+
+def lineFeed (acc : List Char) (chunk : List Char) : List (List Char) × List Char := lineFeedG '\n' acc chunk
+def lineFinish (acc : List Char) : List (List Char) := lineFinishG acc
+def lineRun (acc : List Char) (cs : List (List Char)) : List (List (List Char)) × List (List Char) := lineRunG '\n' acc cs
 
 /-- `line.frame`: `''.join([i, '\n'])` -/
 def lineFrame (s : List Char) : List Char := s ++ ['\n']
